@@ -457,3 +457,63 @@ Proof.
   exists ex_scalar_labelled. eexists. split; [exact ex_scalar_wf|].
   split; [vm_compute; reflexivity | simpl; discriminate].
 Qed.
+
+(* ---------- rebuilding one axis from evenly spaced coordinates ---------- *)
+Lemma last_map_ziota (g : Z -> Q) (m : nat) (z : Z) (d : Q) :
+  last (map g (ziota z (S m))) d = g (z + Z.of_nat m)%Z.
+Proof.
+  revert z. induction m as [|m IH]; intros z.
+  - simpl. f_equal. lia.
+  - change (ziota z (S (S m))) with (z :: ziota (z + 1) (S m)).
+    change (map g (z :: ziota (z + 1) (S m))) with (g z :: map g (ziota (z + 1) (S m))).
+    assert (E : map g (ziota (z + 1) (S m)) <> []) by (simpl; discriminate).
+    destruct (map g (ziota (z + 1) (S m))) as [|y t] eqn:Em; [congruence|].
+    change (last (g z :: y :: t) d) with (last (y :: t) d). rewrite <- Em, IH. f_equal. lia.
+Qed.
+
+Lemma diffs_length (v : list Q) : length (diffs v) = (length v - 1)%nat.
+Proof. unfold diffs. rewrite map2_length. destruct v; simpl; lia. Qed.
+
+Lemma rebuild_axis (x0 c : Q) (k : Z) : 0 < c -> (2 <= k)%Z ->
+  let v := map (fun j => x0 + inject_Z j * c) (ziota 0 (Z.to_nat k)) in
+  evenly 1 v = true /\
+  exists c', mean_spacing v = Some c' /\ c' == c /\
+    let p1 := hd 0 v - c' / 2 in
+    let p2 := last v 0 + c' / 2 in
+    p1 == x0 - c / 2 /\ p2 == x0 + (inject_Z k - 1) * c + c / 2 /\
+    p1 < p2 /\ inject_Z k * c' == p2 - p1 /\ Qround_half_even ((p2 - p1) / c') = k.
+Proof.
+  intros Hc Hk v.
+  assert (Hp : prog c v).
+  { apply prog_map_ziota. intros j _. rewrite inject_Z_plus. change (inject_Z 1) with 1. ring. }
+  split; [exact (prog_evenly c v Hp)|].
+  assert (Lv : length v = Z.to_nat k) by (unfold v; rewrite map_length, ziota_length; reflexivity).
+  assert (Ld : diffs v <> []).
+  { intros E. pose proof (diffs_length v) as L. rewrite E, Lv in L. simpl in L. lia. }
+  exists (qmean (diffs v)).
+  assert (M : qmean (diffs v) == c) by (apply qmean_const; assumption).
+  split.
+  { unfold mean_spacing. rewrite Lv. destruct (Nat.ltb_spec (Z.to_nat k) 2); [lia | reflexivity]. }
+  split; [exact M|].
+  assert (Hhd : hd 0 v == x0).
+  { unfold v. destruct (Z.to_nat k) as [|m] eqn:Ek; [lia|].
+    change (ziota 0 (S m)) with (0%Z :: ziota (0 + 1) m). cbn [map hd]. change (inject_Z 0) with 0. ring. }
+  assert (Hla : last v 0 == x0 + (inject_Z k - 1) * c).
+  { unfold v. destruct (Z.to_nat k) as [|m] eqn:Ek; [lia|].
+    rewrite last_map_ziota. simpl (0 + Z.of_nat m)%Z.
+    assert (Em : Z.of_nat m = (k - 1)%Z) by lia. rewrite Em.
+    assert (EK : inject_Z (k - 1) == inject_Z k - 1) by (unfold Z.sub; rewrite inject_Z_plus; reflexivity).
+    rewrite EK. reflexivity. }
+  cbv zeta.
+  assert (P1 : hd 0 v - qmean (diffs v) / 2 == x0 - c / 2) by (rewrite Hhd, M; reflexivity).
+  assert (P2 : last v 0 + qmean (diffs v) / 2 == x0 + (inject_Z k - 1) * c + c / 2) by (rewrite Hla, M; reflexivity).
+  assert (K2 : 2 <= inject_Z k) by (change 2 with (inject_Z 2); rewrite <- Zle_Qle; lia).
+  assert (Hh : c / 2 + c / 2 == c) by field.
+  assert (Hlt : hd 0 v - qmean (diffs v) / 2 < last v 0 + qmean (diffs v) / 2).
+  { rewrite P1, P2. nra. }
+  assert (Hkc : inject_Z k * qmean (diffs v) ==
+                last v 0 + qmean (diffs v) / 2 - (hd 0 v - qmean (diffs v) / 2)).
+  { rewrite P1, P2, M. lra. }
+  repeat split; try assumption.
+  apply (bc_round _ _ _ k Hlt); [lia | exact Hkc].
+Qed.
